@@ -51,7 +51,9 @@ func (s *Sender) Run(ctx context.Context) {
 			for {
 				if stream == nil {
 					sink = s.Sink
+					streamCancel = nil // do not keep the Done channel of a finished stream
 				} else {
+					sink = nil // do not accept a second stream while one is held
 					streamCancel = stream.Ctx.Done()
 				}
 				select {
